@@ -65,9 +65,14 @@ def main():
             if ":" in pr:
                 pr, tier = pr.split(":")
             r = subprocess.run([sys.executable, os.path.join(VERIF, "run.py"), "check", pr, "--tier", tier],
-                               cwd=VERIF, capture_output=True, text=True, env=env)
+                               cwd=VERIF, capture_output=True, text=True, errors="replace", env=env)
             lines = [l for l in r.stdout.splitlines() if l.startswith(("VIOLATION", "KNOWN", "OK", "INCONCLUSIVE"))]
             print("%s rc=%d %s" % (pr, r.returncode, " | ".join(lines)[:300]))
+            try:
+                os.makedirs("/dev/shm/mut-evidence", exist_ok=True)
+                shutil.copy(os.path.join(env["VERIF_EVIDENCE_DIR"], pr + ".json"), "/dev/shm/mut-evidence/%s.json" % pr)
+            except Exception:
+                pass
             if r.returncode == 2:
                 print(r.stderr[-2500:])
             elif r.returncode == 1:
